@@ -11,6 +11,7 @@
 import FcProofs.Lemmas.Merge
 import FcProofs.Lemmas.MergeStep
 import FcProofs.Lemmas.MergeStructured
+import FcProofs.Lemmas.MergeDecomposition
 namespace Fc
 open Spec
 
@@ -206,5 +207,44 @@ theorem C06_structured_merge {α} (isPoint : Bool) (d : List (List Nat))
   · have hlen := mergeLoop_length (pieceEntityIndices isPoint d) cb (locationsIn (piecesShape d))
       (List.replicate (prodShape (mergedShape isPoint d)) zero)
     rw [List.getElem?_eq_none (by rw [hlen]; simpa using hg), List.getElem?_eq_none (by simpa using hg)]
+
+/-
+  Full-strength statement (not proved; modelled as `Fc.structuredDecomposition`, tied to the code by
+  the correspondence on every enumerated lattice decomposition, listing order and extent shift):
+
+    theorem C06_decomposition  — for every axis-aligned decomposition `d3` of the three VTK directions,
+      every origin and every listing `L` that is a permutation of all piece locations,
+      `structuredDecomposition (L.map (pieceExtent d3 origin))` has `cellsPerAxis = d3`,
+      `pieceLocations = L` restricted to the meshed directions and `domainId loc` = position of `loc` in `L`.
+
+  Missing: the assembly of the three axes (`has_dimension` filter, `order[location] = i` with unique
+  locations).  Proved below: the per-axis core.
+-/
+
+/-- **C06 (decomposition, one axis).**  An axis cut into pieces of `ns` cells (all positive), grid
+    starting at lattice index `o`; `bs` = the positions along this axis of the listed pieces, in ANY
+    order and with ANY repetitions (pieces of a 2-d / 3-d decomposition repeat every position), every
+    position occurring.  Then `np.unique` of the pieces' begins / ends are the begins / ends of
+    positions `0, 1, …` in order, their differences `sizes_along_axis` are exactly `ns`, and
+    `unique_extents_begin.index(begin)` of a piece is its true position. -/
+theorem C06_decomposition_axis_partial (o : Int) (ns : List Nat) (hpos : ∀ n ∈ ns, 0 < n)
+    (bs : List Nat) (hbs : ∀ b, b ∈ bs ↔ b < ns.length) :
+    List.zipWith (fun e b => e - b) (uniqueSorted (bs.map (axisEnd o ns)))
+        (uniqueSorted (bs.map (axisBegin o ns))) = ns.map Int.ofNat ∧
+    ∀ b, b < ns.length → (uniqueSorted (bs.map (axisBegin o ns))).idxOf (axisBegin o ns b) = b := by
+  obtain ⟨hb, he⟩ := axis_recovery o ns hpos bs hbs
+  rw [hb, he]
+  constructor
+  · rw [zipWith_map_same, ← range_map_getD]
+    apply List.map_congr_left
+    intro b hb'
+    simp only [List.mem_range] at hb'
+    simp only [axisEnd, axisBegin, sumList_take_succ ns b hb']
+    omega
+  · intro b hb'
+    apply idxOf_range_map _ _ _ hb'
+    intro a hab
+    have := sumList_take_strict ns hpos a b hab (by omega)
+    simp only [axisBegin]; omega
 
 end Fc
